@@ -4,7 +4,7 @@
 PROPERTIES = {
     "C01": {"category": "exploration",
             "technique": "online DiffHook trace monitor (protocol/coverage/equality/carried-index assertions) + metamorphic sub-range shift check + red-zone Index carriers, over bounded-exhaustive and seeded random inputs; checked-arithmetic build turns overflow/OOB into observable panics",
-            "level_text": "Runtime monitoring of real executions: every callback of every run is checked online by a trace monitor sitting where a user hook sits; complete for all pairs over a 3-letter alphabet up to length 5 (thorough 6; binary up to 8) and all sub-ranges of all pairs up to length 4, sampled beyond (random pairs up to 400 items, near-identical inputs up to 70 000 items, edit distances of thousands, LCS on 4200x4100 unrelated items, deadline expiring at check 0/1, a cross-type tolerance comparison that is not transitive). Right level because the property is a forall over inputs/ranges/Index implementations that only an oracle-carrying monitor run over many executions can probe; no proof is claimed.",
+            "level_text": "Runtime monitoring of real executions: every callback of every run is checked online by a trace monitor sitting where a user hook sits; complete for all pairs over a 3-letter alphabet up to length 5 (thorough 6; binary up to 8) and all sub-ranges of all pairs up to length 4, sampled beyond (random pairs up to 400 items, near-identical inputs up to 70 000 items, edit distances of thousands, LCS on 4200x4100 unrelated items, deadline expiring at check 0/1, a cross-type tolerance comparison that is not transitive). Right level because the property is a forall over inputs/ranges/Index implementations that only an oracle-carrying monitor run over many executions can probe; no proof is claimed. Also: two different lookup types viewing one object at one address, non-reflexive items (f64 NaN) in a buffer that is old and new at once, ranges given with start > end (empty at start).",
             "level_note": "Trusts the trace monitor, the StrictLookup red-zone carrier and rustc/std. Says nothing about inputs outside the enumerated bound except the sampled ones.",
             "anchor_files": ["src/algorithms/myers.rs", "src/algorithms/patience.rs", "src/algorithms/lcs.rs", "src/algorithms/utils.rs", "src/algorithms/mod.rs"],
             "assumptions": ["inputs beyond the enumerated bound are only sampled", "the trace monitor and its red-zone lookups are themselves correct (validated by seeded mutants, see DESIGN.md)"]},
@@ -15,12 +15,12 @@ PROPERTIES.update({
     "C02": {"category": "fault_enumeration",
             "anchor_files": CAPT_FILES,
             "technique": "offline op-list checker (left-to-right walk + independent apply/inverse-apply) over captured diffs; virtual-clock fault injection enumerating every deadline-check index",
-            "level_text": "Every captured op list is walked by an independent checker and additionally applied forwards and backwards on real vectors. Inputs: all pairs over 3 letters up to length 5 x 3 algorithms x 3 capture entry points, all sub-ranges of all short pairs, sampled longer pairs, long inputs (near-identical up to 70 000 items, edit distances of thousands, runs of thousands of identical items, distinct-item counts crossing 256/1024/4096/65 536 through the integer mapping of TextDiff, borrowed-hook and IdentifyDistinct pipelines, non-transitive cross-type equality); for each, the deadline is made to expire at EVERY deadline check (hook H2 virtual clock) - a fault sequence no test can produce with real time.",
+            "level_text": "Every captured op list is walked by an independent checker and additionally applied forwards and backwards on real vectors. Inputs: all pairs over 3 letters up to length 5 x 3 algorithms x 3 capture entry points, all sub-ranges of all short pairs, sampled longer pairs, long inputs (near-identical up to 70 000 items, edit distances of thousands, runs of thousands of identical items, distinct-item counts crossing 256/1024/4096/65 536 through the integer mapping of TextDiff, borrowed-hook and IdentifyDistinct pipelines, non-transitive cross-type equality); for each, the deadline is made to expire at EVERY deadline check (hook H2 virtual clock) - a fault sequence no test can produce with real time. Also: item values with sorted structure around 1024/2048 items, reversed-empty ranges, a user-defined text type (OddStr) as entry point, the capture hook without the compaction stage under every expiry point, and the ratio on real sequences of 2^24+4 / 2^25+6 items and on hand-built op lists up to 2^62 items.",
             "level_note": "Trusts the op-list checker, the virtual clock hook (H2, 10 lines in deadline_support.rs/verif_hooks.rs) and rustc/std. Expiry points are exhaustive only where the number of checks is <= 64, sampled (12 per input) otherwise."},
     "C03": {"category": "exploration",
             "anchor_files": ["src/algorithms/myers.rs", "src/algorithms/lcs.rs", "src/algorithms/compact.rs", "src/common.rs"],
             "technique": "differential check of the observed edit cost (raw callback stream and captured ops) and ratio against an O(NM) LCS dynamic program",
-            "level_text": "Cost of the raw stream and of the captured ops, total Equal length and the f32 ratio are compared with an independent DP on every execution: complete for all pairs over 3 letters up to length 5 (thorough 6) and all sub-ranges of short pairs, sampled up to 150 items, plus long inputs (near-identical and far-apart pairs up to 3000 items against the DP; optimum known by construction at 65 536 distinct items). Minimality is a forall-inputs claim with a cheap exact oracle, so differential monitoring is the natural level.",
+            "level_text": "Cost of the raw stream and of the captured ops, total Equal length and the f32 ratio are compared with an independent DP on every execution: complete for all pairs over 3 letters up to length 5 (thorough 6) and all sub-ranges of short pairs, sampled up to 150 items, plus long inputs (near-identical and far-apart pairs up to 3000 items against the DP; optimum known by construction at 65 536 distinct items). Minimality is a forall-inputs claim with a cheap exact oracle, so differential monitoring is the natural level. Also: sorted-value windows with the optimum known by construction, and the deadline-free text entry points under a virtual clock on which any deadline would have expired.",
             "level_note": "Trusts the 10-line DP reference (lcs_len) and the op-list walk. Patience is excluded by the property itself."},
     "C09": {"category": "fault_enumeration",
             "anchor_files": ["src/algorithms/replace.rs", "src/algorithms/compact.rs", "src/common.rs", "src/algorithms/lcs.rs"],
@@ -64,7 +64,7 @@ PROPERTIES.update({
     "C06": {"category": "exploration",
             "anchor_files": ["src/text/abstraction.rs"],
             "technique": "differential check of all tokenizers against independent byte-level reference splitters (own Unicode White_Space table, std utf8_chunks for validity) + direct shape assertions; exhaustive over strings of a 12-atom hostile alphabet, sampled over generated texts incl. invalid UTF-8; str vs [u8] equality on valid UTF-8",
-            "level_text": "Each of the 6 tokenizers on str and [u8] is checked for: non-empty tokens that are consecutive slices of the input (lossless), equality with a reference splitter written over raw bytes (lines, lines-and-newlines, words, chars), direct shape assertions, and str/[u8] agreement on valid UTF-8. Complete for every string of up to 4 (thorough 6) atoms from {a, SP, LF, CR, e-acute, NBSP, U+2028, VT, 0xFF, truncated E2 82, NEL, TAB}; sampled on generated texts with every Unicode blank and on 8-300 KB inputs with rare characters placed late.",
+            "level_text": "Each of the 6 tokenizers on str and [u8] is checked for: non-empty tokens that are consecutive slices of the input (lossless), equality with a reference splitter written over raw bytes (lines, lines-and-newlines, words, chars), direct shape assertions, and str/[u8] agreement on valid UTF-8. Complete for every string of up to 4 (thorough 6) atoms from {a, SP, LF, CR, e-acute, NBSP, U+2028, VT, 0xFF, truncated E2 82, NEL, TAB}; sampled on generated texts with every Unicode blank and on 8-300 KB inputs with rare characters placed late. A further stage runs the str half against similar built WITHOUT its `bytes` feature; a family places CR LF / multi-byte / invalid sequences across every power-of-two offset from 4096 to 131072.",
             "level_note": "For invalid UTF-8 the reference assumes the 'maximal subpart' chunking of std::str::Utf8Chunks (what bstr documents too). Unicode word / grapheme tokenizers are only required to be lossless and non-empty, as the property states."},
     "C12": {"category": "exploration",
             "anchor_files": ["src/common.rs", "src/algorithms/capture.rs", "src/text/mod.rs"],
@@ -89,7 +89,7 @@ PROPERTIES.update({
     "C20": {"category": "exploration",
             "anchor_files": ["src/algorithms/utils.rs", "src/algorithms/patience.rs", "src/text/mod.rs", "src/text/abstraction.rs"],
             "technique": "differential / metamorphic checks: repeated calls (fresh hash seeds), other threads, separate processes (result digests compared by the driver), order-preserving injective relabellings (Strings, u64), constant-hash items, str vs [u8] text diffs; hook H4 reports how often the hash iteration order seen by unique() actually varied",
-            "level_text": "Schedules here mean threads and hasher seeds: the same inputs are diffed 4x in one thread, on 3 other threads, and again in a second process (thorough: more), and all results/digests must agree; relabelled and hash-colliding inputs must give identical ops; sequences of up to 70 000 mostly unique items with swapped blocks are included. The evidence states for how many Patience inputs the pre-sort hash order differed between calls, i.e. the sort really mattered in what was observed.",
+            "level_text": "Schedules here mean threads and hasher seeds: the same inputs are diffed 4x in one thread, on 3 other threads, and again in a second process (thorough: more), and all results/digests must agree; relabelled and hash-colliding inputs must give identical ops; sequences of up to 70 000 mostly unique items with swapped blocks are included. The evidence states for how many Patience inputs the pre-sort hash order differed between calls, i.e. the sort really mattered in what was observed. Also: the crate's own integer mapping (IdentifyDistinct) as an order-preserving relabelling, and relabelling to line tokens of text diffs (str and a user-defined case-insensitive type).",
             "level_note": "Equality for all hasher seeds is sampled over the seeds the runs happened to draw."},
 })
 
@@ -102,12 +102,12 @@ PROPERTIES.update({
     "C14": {"category": "exploration",
             "anchor_files": ["src/text/mod.rs", "src/algorithms/utils.rs", "src/common.rs"],
             "technique": "differential check: ops of TextDiff for 6 tokenizer entry points vs capture_diff_slices over independently obtained tokens, at token counts on both sides of the >100 switch; algorithm()/newline_terminated() under all overrides; IdentifyDistinct ids vs item equality (all pairs, within and across sides) and diff-through-lookups vs direct diff at non-zero offsets for 5 integer types",
-            "level_text": "Texts of 0,1,50,99,100,101,102,150,400 tokens (vocabulary 3/20/1000, new-only repeated items included) through lines/words/chars/unicode words/graphemes/diff_slices x 3 algorithms x str/[u8] x override none/true/false; IdentifyDistinct checked pairwise on 20k (400k) random inputs with non-zero sub-range offsets; long texts up to 67 000 lines, distinct-token counts crossing 256..65 536 with both sides below the boundary, and Lcs text diffs far above 4096 x 4096 tokens (edits confined to a window).",
+            "level_text": "Texts of 0,1,50,99,100,101,102,150,400 tokens (vocabulary 3/20/1000, new-only repeated items included) through lines/words/chars/unicode words/graphemes/diff_slices x 3 algorithms x str/[u8] x override none/true/false; IdentifyDistinct checked pairwise on 20k (400k) random inputs with non-zero sub-range offsets; long texts up to 67 000 lines, distinct-token counts crossing 256..65 536 with both sides below the boundary, and Lcs text diffs far above 4096 x 4096 tokens (edits confined to a window). Every text case also runs as a user-defined DiffableStr (OddStr: case-insensitive Eq, U+2028 line ends, character-indexed) and through the one-call constructors with String / Cow / Vec<u8> inputs.",
             "level_note": "Tokens are taken from the public tokenizers (validated separately by C06)."},
     "C16": {"category": "fault_enumeration",
             "anchor_files": ["src/text/inline.rs", "src/text/utils.rs", "src/text/mod.rs"],
             "technique": "offline checker over InlineChange streams (tags/indices vs plain expansion, segments rebuild the line, emphasis only in Replace-derived Delete/Insert and never over CR/LF, missing_newline flag), with the second-level diff's deadline absent, default, really expired and virtually expiring at check 0..3; second build without the `unicode` feature in the thorough tier",
-            "level_text": "Line pairs biased to word-level edits (so the ratio gates are passed and emphasis is produced: ~150k emphasised segments per quick run), mixed terminators, lines split in two, invalid UTF-8 in the [u8] variant; every op of every diff is expanded under 4 deadline regimes; lines with exactly 255..4097 word tokens and lines with 70 000 distinct words are included.",
+            "level_text": "Line pairs biased to word-level edits (so the ratio gates are passed and emphasis is produced: ~150k emphasised segments per quick run), mixed terminators, lines split in two, invalid UTF-8 in the [u8] variant; every op of every diff is expanded under 4 deadline regimes; lines with exactly 255..4097 word tokens and lines with 70 000 distinct words are included. Every valid-UTF-8 case also runs as a user-defined DiffableStr (OddStr) whose len/slice count characters and which knows a further line terminator.",
             "level_note": "The default 500 ms deadline of iter_inline_changes is real time: whether it expires is load dependent, the asserted properties are not."},
     "C17": {"category": "exploration",
             "anchor_files": ["src/utils.rs", "src/text/abstraction.rs", "src/types.rs"],
